@@ -23,6 +23,8 @@ CONSTANTS Prefix,      \* prefixes
           Reject,      \* classes the export policy rejects
           SendMax,     \* 1 = plain session, >1 = add-path TX window
           MaxChan,     \* bound on undelivered notifications (state constraint)
+          LidMode,     \* "abstract": local path id = source rank (finite, for exhaustive checking);
+                       \* "real": the destination's counter as implemented (unbounded, for replayed walks)
           Dev
 
 VARIABLE s
@@ -33,6 +35,7 @@ VARIABLE s
 Init ==
   s = [ rib    |-> [p \in Prefix |-> {}],
         did    |-> [p \in Prefix |-> 0],
+        nlid   |-> [p \in Prefix |-> 1],          \* next local path id of the destination ("real" mode)
         llgr   |-> {},                            \* LLGR-stale sources
         chan   |-> <<>>,
         xmap   |-> {},                            \* << id, pid >> marked as advertised
@@ -85,12 +88,15 @@ PathOf(st, p, src) == CHOOSE x \in st.rib[p] : x.src = src
 \* announce / replace one path
 DoAnnounce(st, op) ==
   LET had  == Has(st, op.p, op.src)
-      \* local path ids are abstracted to the source's rank (one path per source and prefix);
-      \* the implementation's counter is unbounded and compared modulo renaming
-      lid  == SrcRank[op.src]
+      \* local path id: kept on replacement; otherwise the destination's counter, which restarts
+      \* at 1 for a (re-)created destination.  In "abstract" mode it is the source's rank.
+      lid  == IF LidMode = "abstract" THEN SrcRank[op.src]
+              ELSE IF had THEN PathOf(st, op.p, op.src).lid
+              ELSE IF st.rib[op.p] = {} THEN 1 ELSE st.nlid[op.p]
       x    == [src |-> op.src, cls |-> op.cls, lid |-> lid]
       id   == IF st.did[op.p] = 0 THEN FreeId(st) ELSE st.did[op.p]
-      st2  == [st EXCEPT !.rib[op.p] = {y \in @ : y.src # op.src} \cup {x}, !.did[op.p] = id]
+      st2  == [st EXCEPT !.rib[op.p] = {y \in @ : y.src # op.src} \cup {x}, !.did[op.p] = id,
+                         !.nlid[op.p] = IF LidMode = "abstract" \/ had THEN @ ELSE lid + 1]
       n    == Note(op.p, id, BestKey(st, op.p) # BestKey(st2, op.p), TRUE, IF had THEN lid ELSE 0, Ranked(st2, op.p))
   IN [st2 EXCEPT !.chan = Append(@, n)]
 
